@@ -677,6 +677,9 @@ class Interp(object):
                             break
                 if elems is not None:
                     break
+            if elems is None and isinstance(it, (ast.Tuple, ast.List)) and not any(isinstance(x, ast.Starred) for x in it.elts):
+                # a literal collection: its elements, symbolically
+                elems = [Sym(tuple(x.elts) if isinstance(x, (ast.Tuple, ast.List)) else x) for x in it.elts]
             if elems is None:
                 raise AnalysisError('%s: iterable `%s` in %s is outside the idioms the abstract interpreter '
                                     'knows' % (loc(st), src(st.iter), self.fn.name))
